@@ -564,15 +564,21 @@ impl CommandTask {
         );
         let child_fut = async { child.wait().await.map_err(MonorailError::from) };
 
+        // Both readers are driven to completion together: when the task is cancelled each of
+        // them still has to hand over what it has read so far, and returning at the first
+        // error would drop the other one before it did.
+        let readers_fut = async {
+            let (stdout_result, stderr_result) = tokio::join!(stdout_fut, stderr_fut);
+            stdout_result.and(stderr_result)
+        };
+
         // todo; cancellation future
-        let (_stdout_result, _stderr_result, child_result) =
-            tokio::try_join!(stdout_fut, stderr_fut, child_fut).map_err(|e| {
-                CommandTaskCancelInfo {
-                    id: self.id,
-                    elapsed: self.start_time.elapsed(),
-                    status: RunStatus::Error,
-                    error: Some(e.to_string()),
-                }
+        let (_readers_result, child_result) =
+            tokio::try_join!(readers_fut, child_fut).map_err(|e| CommandTaskCancelInfo {
+                id: self.id,
+                elapsed: self.start_time.elapsed(),
+                status: RunStatus::Error,
+                error: Some(e.to_string()),
             })?;
         Ok(CommandTaskFinishInfo {
             id: self.id,
